@@ -1,5 +1,6 @@
 mod c01;
 mod c08;
+mod c09;
 mod c19;
 mod c20;
 mod gen08;
@@ -48,6 +49,7 @@ fn run_property(id: &str, args: &[String]) -> i32 {
     match id {
         "C01" => check::run_check(&c01::C01, &opts),
         "C08" => check::run_check(&c08::C08, &opts),
+        "C09" => check::run_check(&c09::C09::new(), &opts),
         "C19" => check::run_check(&c19::C19, &opts),
         "C20" => check::run_check(&c20::C20, &opts),
         _ => {
@@ -76,6 +78,7 @@ fn replay(path: &str) -> i32 {
     match v.get("property").and_then(|x| x.as_str()) {
         Some("C01") => check::replay_main(&c01::C01, p),
         Some("C08") => check::replay_main(&c08::C08, p),
+        Some("C09") => check::replay_main(&c09::C09::new(), p),
         Some("C19") => check::replay_main(&c19::C19, p),
         Some("C20") => check::replay_main(&c20::C20, p),
         other => {
@@ -89,7 +92,7 @@ fn selfcheck(args: &[String], child: bool) -> i32 {
     let n: u64 = args.get(2).and_then(|s| s.parse().ok()).unwrap_or(200);
     let seed: u64 = args.get(1).and_then(|s| s.parse().ok()).unwrap_or(check::verif_seed());
     let ids: Vec<&str> = match args.first().map(String::as_str) {
-        Some("all") | None => vec!["C01", "C08", "C19", "C20"],
+        Some("all") | None => vec!["C01", "C08", "C09", "C19", "C20"],
         Some(x) => vec![x],
     };
     let mut code = 0;
@@ -97,6 +100,7 @@ fn selfcheck(args: &[String], child: bool) -> i32 {
         let r = match id {
             "C01" => check::selfcheck(&c01::C01, seed, n, child),
             "C08" => check::selfcheck(&c08::C08, seed, n, child),
+            "C09" => check::selfcheck(&c09::C09::new(), seed, n, child),
             "C19" => check::selfcheck(&c19::C19, seed, n, child),
             "C20" => check::selfcheck(&c20::C20, seed, n, child),
             _ => Err(format!("unknown property {id}")),
@@ -127,6 +131,18 @@ fn main() {
         Some("probe") => probe(&args[2..]),
         Some("check") => std::process::exit(run_property(&args[2], &args[3..])),
         Some("replay") => std::process::exit(replay(&args[2])),
+        Some("survey") => {
+            let n: u64 = args.get(3).and_then(|s| s.parse().ok()).unwrap_or(2000);
+            let seed = check::verif_seed();
+            match args[2].as_str() {
+                "C01" => check::survey(&c01::C01, seed, n),
+                "C08" => check::survey(&c08::C08, seed, n),
+                "C09" => check::survey(&c09::C09::new(), seed, n),
+                "C19" => check::survey(&c19::C19, seed, n),
+                "C20" => check::survey(&c20::C20, seed, n),
+                _ => {}
+            }
+        }
         Some("selfcheck") => std::process::exit(selfcheck(&args[2..], false)),
         Some("selfcheck-child") => std::process::exit(selfcheck(&args[2..], true)),
         Some("hashprobe") => {
